@@ -345,7 +345,8 @@ func scanEntryPoints(isEntryPointGraphNode func(node GraphNode) bool, g *InterPr
 		// TODO: try to factor out the special cases in the isEntryPointGraphNode functions
 		switch node := n.(type) {
 		case *SyntheticNode:
-			if _, isStore := node.instr.(*ssa.Store); !isStore {
+			ssaNode, isNode := node.instr.(ssa.Node)
+			if _, isStore := node.instr.(*ssa.Store); !isStore && isNode && isEntryPointSsa(ssaNode) {
 				// all other non-store synthetic nodes are entry points.
 				// WARNING: revise when this changes!
 				entry := NodeWithTrace{Node: node}
